@@ -17,5 +17,6 @@ fn main() {
     let plans = qcheck::tier_plans(args.tier, false);
     let budget = if args.tier == Tier::Quick { Duration::from_secs(40) } else { Duration::from_secs(1500) };
     qcheck::run_plans(&mut c, &plans, budget);
+    qcheck::run_linear(&mut c, args.tier);
     c.finish();
 }
